@@ -53,7 +53,7 @@ def branch_encodings(tier: str, seed: int) -> List[bytes]:
     return out
 
 
-def observe(eh, en, arch, rid: int, enc: bytes, addr: int, seed: int) -> Dict[str, Any]:
+def observe(eh, en, arch, rid: int, enc: bytes, addr: int, seed: int, vh=None) -> List[Dict[str, Any]]:
     rnd = random.Random(seed)
     st = en.random_state(rnd, code_at=addr)
     st["regs"]["F"] = rnd.randrange(4)
@@ -78,15 +78,25 @@ def observe(eh, en, arch, rid: int, enc: bytes, addr: int, seed: int) -> Dict[st
     st1 = p["steps"][0]
     pm = p["_mem"]
     fin = sorted({a: pm.mem[a] for a, _ in st1["writes"]}.items())
-    return {"id": rid, "b": list(enc) + [0] * (8 - len(enc)), "n": len(enc), "regs": regs, "mem": mem, "ilen": ilen, "br": br,
+    out = [{"id": rid, "impl": "py", "b": list(enc) + [0] * (8 - len(enc)), "n": len(enc), "regs": regs, "mem": mem, "ilen": ilen, "br": br,
             "post": st1["regs"], "fin": [[a, v] for a, v in fin], "err": 1 if (st1["err"] or ierr) else 0, "seed": seed, "addr": addr,
-            "errtext": (st1["err"] or "") + ierr}
+            "errtext": (st1["err"] or "") + ierr}]
+    if vh is not None and not ierr:
+        # the same metadata against where the Rust core goes
+        r = vh.call("exec.run", regs=regs, mem=mem, n=1, hashed=True)
+        s2 = r["steps"][0]
+        touched = sorted({w[0] for w in s2["writes"]})
+        fin2 = vh.call("exec.mem", addrs=touched)["mem"] if touched else []
+        out.append({"id": rid + 50_000_000, "impl": "rs", "b": out[0]["b"], "n": len(enc), "regs": regs, "mem": mem, "ilen": ilen, "br": br,
+                    "post": {k: int(v) for k, v in s2["regs"].items()}, "fin": [[a, v] for a, v in fin2], "err": 1 if s2["err"] else 0, "seed": seed, "addr": addr,
+                    "errtext": str(s2["err"] or "")})
+    return out
 
 
 def judge(shard_id: int, recs: List[Dict[str, Any]]):
     d = vlib.scratch("C05")
     tf = d / f"meta-{shard_id}.ndjson"
-    vlib.write_ndjson(tf, [{k: v for k, v in r.items() if k not in ("errtext", "seed", "addr")} for r in recs])
+    vlib.write_ndjson(tf, [{k: v for k, v in r.items() if k not in ("errtext", "seed", "addr", "impl")} for r in recs])
     res = run_tlc(SD, "JudgeMeta", "JudgeMeta.cfg", workers=1, env={"TRACE_FILE": str(tf)}, tag=f"C05-meta-{shard_id}", jvm=["-Xss128m"], heap="3g", timeout=3000)
     verdict = None
     for v in res.printed():
@@ -103,7 +113,13 @@ def _job_meta(arg):
     eh, en = c04._imports()
     import decode_harness as dh
     arch, _ = dh._setup()
-    recs = [observe(eh, en, arch, rid, enc, addr, seed) for (rid, enc, addr, seed) in items]
+    vh = Vh()
+    recs = []
+    try:
+        for (rid, enc, addr, seed) in items:
+            recs += observe(eh, en, arch, rid, enc, addr, seed, vh)
+    finally:
+        vh.close()
     v = judge(shard_id, recs)
     byid = {r["id"]: r for r in recs}
     bad = []
@@ -111,7 +127,7 @@ def _job_meta(arg):
         r = byid[int(x[0])]
         b = r["b"]
         op = b[1] if b[0] in c04.PRE_SET else b[0]
-        bad.append((str(x[1]), f"op{op:02X}", c04._fmt(x[2]), {"kind": "meta", "bytes": b[: r["n"]], "addr": r["addr"], "seed": r["seed"]},
+        bad.append((str(x[1]), f"{r['impl']}:op{op:02X}", c04._fmt(x[2]), {"kind": "meta", "impl": r["impl"], "bytes": b[: r["n"]], "addr": r["addr"], "seed": r["seed"]},
                     {"branches": r["br"], "len": r["ilen"], "pc_after": r["post"]["PC"], "F": r["regs"]["F"]}, r["errtext"]))
     return len(recs), bad[:3000], len(bad), len(v[3])
 
@@ -299,9 +315,15 @@ def replay(path: str) -> int:
     if rec["kind"] == "meta":
         import decode_harness as dh
         arch, _ = dh._setup()
-        r = observe(eh, en, arch, 1, bytes(rec["bytes"]), rec["addr"], rec["seed"])
-        v = judge(999, [r])
-        print(json.dumps({k: r[k] for k in ("br", "ilen", "post")}), v[2])
+        vh = Vh()
+        try:
+            rs = observe(eh, en, arch, 1, bytes(rec["bytes"]), rec["addr"], rec["seed"], vh)
+        finally:
+            vh.close()
+        v = judge(999, rs)
+        for r in rs:
+            print(r["impl"], json.dumps({k: r[k] for k in ("br", "ilen", "post")}))
+        print(v[2])
         return 1 if v[2] else 0
     rp = PyReplayer(eh) if rec["impl"] == "py" else RsReplayer()
     try:
